@@ -26,7 +26,7 @@ FLOORS = {"quick": {"stmt_checks": 20000, "pair_checks": 100000, "inplace_stmts"
 
 def gen_case(rng, cfg, idx):
     import os
-    b, base, n_inplace = gen_history(rng, nstmts=cfg["nstmts"], setshape_w=float(os.environ.get("MGV_SETSHAPE_W", "0.6")))
+    b, base, n_inplace = gen_history(rng, nstmts=cfg["nstmts"], setshape_w=float(os.environ.get("MGV_SETSHAPE_W", "0.6")), const_kw_prob=0.12, bad_w=0.5)
     return {"prog": b.prog, "base": base}
 
 
@@ -88,12 +88,24 @@ def run_case(case):
     prog = case["prog"]
     REG.reset()
     it = Interp("mg")
-    sh = Shadow(prog)
+    sh = Shadow(prog, skip=[i for i, st in enumerate(prog) if st.get("expect_raise")])
     ids, consts = {}, {}
     cnt, viol, sets = {}, [], {}
     kinds = []
     for i, st in enumerate(prog):
         _, _, sexc = sh.step()
+        if st.get("expect_raise"):
+            # NumPy rejects this statement (checked at generation time): MyGrad must reject it too, and nothing may change
+            cnt["numpy_rejected_stmts"] = cnt.get("numpy_rejected_stmts", 0) + 1
+            try:
+                it.exec(i, st)
+                viol.append({"monitor": "O-np", "mech": f"accepts-what-numpy-rejects:{st['k']}", "msg": f"stmt {i} {st['k']} {st.get('shape', '')} is rejected by NumPy but MyGrad accepted it"})
+                break
+            except Exception:
+                pass
+            if not compare_state(it, sh, ids, consts, i, st, cnt, viol):
+                break
+            continue
         if sexc is not None:
             return {"viol": [{"monitor": "harness", "mech": "shadow-raised", "msg": f"shadow raised at {i}: {sexc!r}"}]}
         try:
